@@ -4,6 +4,7 @@ import (
 	"encoding/json"
 	"fmt"
 	"os"
+	"strings"
 
 	"verif/engine/gosx"
 )
@@ -75,6 +76,11 @@ func replayFile(path string) int {
 		json.Unmarshal(rec.Replay["files"], &p.Files)
 		var m gosx.Model
 		json.Unmarshal(rec.Replay["model"], &m)
+		var aid string
+		json.Unmarshal(rec.Replay["assertion"], &aid)
+		if strings.HasSuffix(aid, "/nontermination") {
+			p.replayTimeout = 5
+		}
 		ok, detail := c.replayProg(p, m)
 		fmt.Printf("program:\n%s\ninputs: %s\ngoat: %v\ngo:   %v\n", p.Src, modelString(m), detail["goat"], detail["go"])
 		reproduced = ok
